@@ -76,6 +76,12 @@ pub fn rand_instr(rng: &mut StdRng) -> u16 {
         13 => base | (rng.random::<u16>() & 0xFFF),
         _ => base | pick(rng, &[0x20u16, 0x21, 0x22, 0x23, 0x24, 0x25, 0x00, 0x26, 0xFF, 0x80]),
     };
+    // forms that random draws almost never produce: calls and returns through R7, R6-based accesses,
+    // destination = source, every TRAP vector class
+    if chance(rng, 8) {
+        return pick(rng, &[0x41C0u16, 0xC1C0, 0x4180, 0xC180, 0x6FBF, 0x7FBF, 0x6DBE, 0x1FFF, 0x5FFF, 0x9FFF, 0x1DA1, 0xEFFF, 0xAFFF, 0xBFFF, 0x2FFF, 0x3FFF,
+                           0x4FFF, 0x4800, 0x0FFF, 0x0E00, 0xF000, 0xF0FF, 0xF01F, 0xF026, 0x927F, 0x1240, 0x5240]);
+    }
     // occasionally corrupt a must-be-zero bit
     if chance(rng, 6) { w ^ (1 << rng.random_range(0..12)) } else { w }
 }
@@ -458,17 +464,21 @@ pub fn gen_adv(a: &Args, out: &mut Out, run0: u64, reps: u64) -> u64 {
             targets.push(rng.random());
             targets.push(rng.random::<u16>() % 0x3000);
             for &t in &targets {
+                let strict = chance(&mut rng, 20);
                 let flags = SimFlags {
-                    strict: false, use_real_traps: chance(&mut rng, 50),
+                    strict, use_real_traps: chance(&mut rng, 50),
                     machine_init: MachineInitStrategy::Known { value: pick(&mut rng, &[0u16, 0xFFFF, 0x1234]) },
                     debug_frames: chance(&mut rng, 30), ignore_privilege: false,
                 };
                 let mut m = M::new(run, flags, out);
                 run += 1;
                 m.keys(out, &[b'k', b'q']);
-                for r in 0..8u8 { let x = word(rng.random(), 0xFFFF); m.set_reg(out, r, x); }
+                // (strict runs leave some registers uninitialised: the privilege decision must not depend on it)
+                for r in 0..8u8 { if strict && chance(&mut rng, 40) { continue; } let x = word(rng.random(), 0xFFFF); m.set_reg(out, r, x); }
                 let sr = rng.random_range(0..6u16);
                 let br = 1 + rng.random_range(0..5u16);
+                // a store of the very word the target already holds is still a store
+                let same_value = chance(&mut rng, 25);
                 let mut pokes: Vec<(u16, Word)> = vec![];
                 // recognisable data at the target (not for MMIO ports, which the device answers)
                 if t < 0xFE00 { pokes.push((t, word(0xBEEF, 0xFFFF))); }
@@ -534,6 +544,8 @@ pub fn gen_adv(a: &Args, out: &mut Out, run0: u64, reps: u64) -> u64 {
                     }
                 };
                 m.set_mems(out, &pokes);
+                if same_value && matches!(mode, "ST" | "STR" | "STI") { let cur = m.sim.mem[t]; m.set_reg(out, sr as u8, cur); }
+                if strict && mode == "RTI" && chance(&mut rng, 50) { m.set_reg(out, 6, word(t, 0)); }
                 m.set_pc(out, pc);
                 for _ in 0..steps {
                     let r = m.step(out, false, false);
